@@ -7,7 +7,7 @@ CONSTANTS
   FVals = {2}
   SVals = {1}
   VecIdx = {0}
-  MaxPend = 1
+  MaxPend = 0
   Mode = "index"
 VIEW StoreView
 ACTION_CONSTRAINT EmitEdge
